@@ -202,7 +202,10 @@ MgBookmarkOK(G, tb, ta, to, tm) ==
      ELSE IF ta = to THEN (IF Stable(ta) THEN tm = ta ELSE Pushed(ta))
      ELSE IF StableAll(ta) /\ StableAll(to) /\ StableAll(tb) THEN RefMergeOK(G.par, ta, tb, to, tm)
      ELSE /\ AddIds(tm) \subseteq ImgAll(ta) \cup ImgAll(tb) \cup ImgAll(to)
-          /\ (AddIds(ta) # {} /\ AddIds(to) # {}) => AddIds(tm) # {}
+          (* something survives unless the merge algebra cancels everything (C12's "no  *)
+          (* side dropped" counts net-positive ids: two different resolutions a and o   *)
+          (* of a conflicted base <a - 0 + o> give a - (a + o) + o = absent)            *)
+          /\ (AddIds(ta) # {} /\ AddIds(to) # {} /\ NetPositiveIds(ta, tb, to) # {}) => AddIds(tm) # {}
 MgWcOK(G, wb, wa, wo, wm) ==
   LET WcImg(c) == IF c = 0 THEN {0}
                   ELSE IF c \in Kept(G) THEN {c}
